@@ -32,10 +32,49 @@ use crate::{coq::*, guest::*, out::Sink, rng::Rng, Opts};
 struct PassLayer;
 impl<S: Subscriber> Layer<S> for PassLayer {}
 
+/// A layer that keeps its own data in the extensions of every span (as `fmt` layers, OpenTelemetry
+/// layers etc. do) and touches it in every span callback.
+struct ExtLayer;
+struct ExtLayerData(u64);
+impl<S: Subscriber + for<'a> LookupSpan<'a>> Layer<S> for ExtLayer {
+    fn on_new_span(&self, _: &tracing_core::span::Attributes<'_>, id: &tracing_core::span::Id, ctx: tracing_subscriber::layer::Context<'_, S>) {
+        if let Some(span) = ctx.span(id) {
+            // (several layers of this type may be in one stack: `insert` asserts that the type is new)
+            let mut extensions = span.extensions_mut();
+            if extensions.get_mut::<ExtLayerData>().is_none() {
+                extensions.insert(ExtLayerData(0));
+            }
+        }
+    }
+    fn on_enter(&self, id: &tracing_core::span::Id, ctx: tracing_subscriber::layer::Context<'_, S>) {
+        if let Some(span) = ctx.span(id) {
+            if let Some(data) = span.extensions_mut().get_mut::<ExtLayerData>() {
+                data.0 += 1;
+            }
+        }
+    }
+    fn on_close(&self, id: tracing_core::span::Id, ctx: tracing_subscriber::layer::Context<'_, S>) {
+        if let Some(span) = ctx.span(&id) {
+            let _ = span.extensions_mut().remove::<ExtLayerData>();
+        }
+    }
+}
+
+/// Other layers of the stack: all of them are pass-through layers for the model.
+#[derive(Clone, Copy, Debug, PartialEq)]
+enum PassKind {
+    /// overrides nothing
+    Plain,
+    /// overrides nothing, behind a per-layer filter (`Layer::with_filter(LevelFilter)`)
+    PerLayerFiltered(u8),
+    /// stores its own extension in every span
+    Extensions,
+}
+
 #[derive(Clone, Debug)]
 enum LayerSpec {
     Capture(FilterSpec),
-    Pass,
+    Pass(PassKind),
 }
 
 type BoxLayer<S> = Box<dyn Layer<S> + Send + Sync + 'static>;
@@ -46,7 +85,13 @@ where
     S: Subscriber + for<'a> LookupSpan<'a> + 'static,
 {
     match spec {
-        LayerSpec::Pass => Box::new(PassLayer),
+        LayerSpec::Pass(PassKind::Plain) => Box::new(PassLayer),
+        LayerSpec::Pass(PassKind::PerLayerFiltered(l)) => {
+            use tracing_subscriber::filter::LevelFilter;
+            let filter = [LevelFilter::ERROR, LevelFilter::WARN, LevelFilter::INFO, LevelFilter::DEBUG, LevelFilter::OFF][*l as usize % 5];
+            Box::new(PassLayer.with_filter(filter))
+        }
+        LayerSpec::Pass(PassKind::Extensions) => Box::new(ExtLayer),
         LayerSpec::Capture(f) => {
             let storage = SharedStorage::default();
             let layer = f.attach(CaptureLayer::new(&storage));
@@ -132,7 +177,7 @@ fn run_stack(prog: &Prog, specs: &[LayerSpec]) -> StackOut {
 fn cspec(s: &LayerSpec) -> String {
     match s {
         LayerSpec::Capture(f) => format!("(SCapture {})", f.fexpr().coq()),
-        LayerSpec::Pass => "SPass".into(),
+        LayerSpec::Pass(_) => "SPass".into(),
     }
 }
 
@@ -174,8 +219,13 @@ fn stack_case(sink: &mut Sink, idx: u64, kind: &str, prog: &Prog, specs: &[Layer
     sink.bump(&format!("stack:capture-layers:{ncap}"));
     sink.bump(&format!("stack:pass-layers:{}", specs.len() - ncap));
     for (pos, s) in specs.iter().enumerate() {
-        if matches!(s, LayerSpec::Pass) {
+        if let LayerSpec::Pass(k) = s {
             sink.bump(&format!("stack:pass-at:{pos}"));
+            sink.bump(match k {
+                PassKind::Plain => "stack:pass-kind:plain",
+                PassKind::PerLayerFiltered(_) => "stack:pass-kind:per-layer-filtered",
+                PassKind::Extensions => "stack:pass-kind:own-span-extensions",
+            });
         }
     }
     if out.panicked {
@@ -207,10 +257,18 @@ fn singles_raws(prog: &Prog) -> Vec<u64> {
     .unwrap_or_default()
 }
 
+fn gen_pass_kind(r: &mut Rng) -> PassKind {
+    match r.below(4) {
+        0 | 1 => PassKind::Plain,
+        2 => PassKind::PerLayerFiltered(r.below(5) as u8),
+        _ => PassKind::Extensions,
+    }
+}
+
 /// the given capture layers with a pass-through layer at `pos` (0 = innermost)
 fn with_pass_at(caps: &[FilterSpec], pos: usize) -> Vec<LayerSpec> {
     let mut out: Vec<LayerSpec> = caps.iter().cloned().map(LayerSpec::Capture).collect();
-    out.insert(pos, LayerSpec::Pass);
+    out.insert(pos, LayerSpec::Pass(PassKind::Plain));
     out
 }
 
@@ -340,12 +398,12 @@ pub fn run(o: &Opts) {
             let mut specs = vec![];
             for (pos, f) in caps.iter().enumerate() {
                 if r.chance(50) || (force && forced_pos == pos) {
-                    specs.push(LayerSpec::Pass);
+                    specs.push(LayerSpec::Pass(gen_pass_kind(&mut r)));
                 }
                 specs.push(LayerSpec::Capture(f.clone()));
             }
             if r.chance(50) || (force && forced_pos == ncap) {
-                specs.push(LayerSpec::Pass);
+                specs.push(LayerSpec::Pass(gen_pass_kind(&mut r)));
             }
             stack_case(&mut sink, idx, "random-stack", &prog, &specs);
         }
